@@ -80,8 +80,22 @@ package claim
 //@ macro CLAIMSPECKEY(k) = k == "compositionRef" || k == "compositionSelector" || k == "compositionRevisionRef" || k == "compositionRevisionSelector" || k == "compositionUpdatePolicy" || k == "compositeDeletePolicy" || k == "resourceRef" || k == "publishConnectionDetailsTo" || k == "writeConnectionSecretToRef"
 //@ macro PROPAGATED(k) = k == "compositionRef" || k == "compositionSelector" || k == "compositionUpdatePolicy" || k == "compositionRevisionSelector"
 
+// C07 (an existing external name is kept): in the server-side syncer the XR's existing external
+// name is put on the patch after - never before - the claim's annotations are copied onto it,
+// with the value read from the XR, so the claim's own annotation cannot replace it.
 //@ func (*claim.ServerSideCompositeSyncer).Sync
 //@ props C06 C07
+//@ ghost nameRestored bool = false
+//@ optional site meta.SetExternalName($o, $n) as restore-external-name
+//@   where $o == xrPatch
+//@   assert [C07:restored-external-name-is-the-xrs-own] $n == meta.GetExternalName(xr) && $n != ""
+//@   update nameRestored = true
+//@ optional site meta.AddAnnotations($o, $a) as claim-annotations
+//@   where $o == xrPatch
+//@   assert [C07:claim-annotations-are-copied-before-the-xrs-name-is-restored] !nameRestored
+//@ site (client.Writer).Patch(_, _, $obj, $p, $po...) as apply-xr
+//@   where $obj == xrPatch
+//@   assert [C07:existing-external-name-is-on-the-patch] meta.GetExternalName(xr) != "" ==> nameRestored
 //@ globals internal/xcrd
 //@ ghost claimBound bool = false
 //@ ghost xrApplied bool = false
@@ -181,3 +195,15 @@ package claim
 //@   assert [C09:same-data] $o == $ts && $ts.Data == fs.Data
 //@   assert [C09,C02:secret-controllable-by-claim] contains($opts, resource.ConnectionSecretMustBeControllableBy(to.GetUID()))
 //@ ensures [C09:no-secret-no-propagation] (from.GetWriteConnectionSecretToReference() == nil || to.GetWriteConnectionSecretToReference() == nil) ==> (result == false && err == nil && writes == old(writes))
+
+// C07 (what the XR side owns is preserved). The client-side syncer writes the XR through a
+// merge-patching applicator: fields the XR owns and that the rebuilt object does not carry
+// (resourceRefs, its connection secret reference) are left as they are in the store; a replacing
+// (update) applicator would drop them.
+//@ func claim.NewClientSideCompositeSyncer
+//@ props C07
+//@ let $app = result resource.NewAPIPatchingApplicator
+//@ site resource.NewAPIPatchingApplicator($c)
+//@   assert [C07:xr-written-through-a-patching-applicator-of-the-given-client] $c == c
+//@ ensures [C07:xr-owned-fields-preserved-by-merge-patch] result != nil && result.client.Applicator == $app && result.client.Client == c
+
